@@ -15,7 +15,7 @@ fn param_to_json(p: &Param) -> Value {
         PKind::Str { size, mask, furibug } => ("str", json!({"size": match size { StrSize::Block(b) => json!({"bs": b}), StrSize::Pascal(b) => json!({"pbs": b}), StrSize::Fixed { len, nulless } => json!({"len": len, "nulless": nulless}) }, "mask": mask, "furibug": furibug})),
         _ => ("simple", Value::Null),
     };
-    json!({"ch": p.ch.to_string(), "kind": kind, "extra": extra, "imm": p.imm, "arg0": p.arg0, "hex": p.hex})
+    json!({"ch": p.ch.to_string(), "kind": kind, "extra": extra, "imm": p.imm, "arg0": p.arg0, "hex": p.hex, "enm": p.enm})
 }
 fn param_from_json(v: &Value) -> Param {
     let ch = v["ch"].as_str().unwrap().chars().next().unwrap();
@@ -23,9 +23,9 @@ fn param_from_json(v: &Value) -> Param {
         let e = &v["extra"];
         let size = if let Some(b) = e["size"].get("bs") { StrSize::Block(b.as_u64().unwrap() as usize) } else if let Some(b) = e["size"].get("pbs") { StrSize::Pascal(b.as_u64().unwrap() as usize) } else { StrSize::Fixed { len: e["size"]["len"].as_u64().unwrap() as usize, nulless: e["size"]["nulless"].as_bool().unwrap() } };
         let m: Vec<u8> = e["mask"].as_array().unwrap().iter().map(|x| x.as_u64().unwrap() as u8).collect();
-        Param { ch, kind: PKind::Str { size, mask: [m[0], m[1], m[2]], furibug: e["furibug"].as_bool().unwrap() }, imm: false, arg0: false, hex: false }
+        Param { ch, kind: PKind::Str { size, mask: [m[0], m[1], m[2]], furibug: e["furibug"].as_bool().unwrap() }, imm: false, arg0: false, hex: false, enm: false }
     } else { Param::simple(ch) };
-    p.imm = v["imm"].as_bool().unwrap_or(false); p.arg0 = v["arg0"].as_bool().unwrap_or(false); p.hex = v["hex"].as_bool().unwrap_or(false);
+    p.imm = v["imm"].as_bool().unwrap_or(false); p.arg0 = v["arg0"].as_bool().unwrap_or(false); p.hex = v["hex"].as_bool().unwrap_or(false); p.enm = v["enm"].as_bool().unwrap_or(false);
     p
 }
 fn arg_to_json(a: &Arg) -> Value { match a { Arg::I(v) => json!({"i": v}), Arg::F(x) => json!({"f": x.to_bits()}), Arg::Reg(r) => json!({"reg": r}), Arg::S(s) => json!({"s": s}) } }
@@ -59,6 +59,11 @@ fn raised_args(stmts: &[truth::Sp<ast::Stmt>]) -> Result<Vec<Vec<Arg>>, String> 
                     ast::Expr::LitInt { value, .. } => Arg::I(*value),
                     ast::Expr::LitFloat { value } => Arg::F(*value),
                     ast::Expr::LitString(s) => Arg::S(s.string.clone()),
+                    // enum-coloured arguments print 0 / 1 as the constants of the built-in `bool` enum
+                    ast::Expr::EnumConst { ident, .. } if ident.value.as_raw().to_string() == "true" => Arg::I(1),
+                    ast::Expr::EnumConst { ident, .. } if ident.value.as_raw().to_string() == "false" => Arg::I(0),
+                    ast::Expr::Var(v) if matches!(&v.name, ast::VarName::Normal { ident, .. } if ident.as_raw().to_string() == "true") => Arg::I(1),
+                    ast::Expr::Var(v) if matches!(&v.name, ast::VarName::Normal { ident, .. } if ident.as_raw().to_string() == "false") => Arg::I(0),
                     ast::Expr::Var(v) => match v.name { ast::VarName::Reg { reg, .. } => Arg::Reg(reg.0), _ => return Err(format!("unexpected named variable {}", truth::fmt::stringify(&a.value))) },
                     other => return Err(format!("unexpected argument form {}", truth::fmt::stringify(other))),
                 });
